@@ -28,5 +28,6 @@ class C15(Prop):
 
 
 from .c19 import C19  # noqa: E402
+from .c16 import C16  # noqa: E402
 
-ALL = {c.id: c for c in [C15, C19]}
+ALL = {c.id: c for c in [C15, C16, C19]}
